@@ -10,6 +10,7 @@ bound on the number of backend calls per solve().
 from __future__ import annotations
 
 import hashlib
+import random
 import warnings
 
 from sim import core, peers, refsem
@@ -148,8 +149,25 @@ def generate(rng, tier, index):
             i = rng.randrange(len(decls))
             ops.append({"s": 0, "op": "scribble", "id": i, "val": rng.choice([None, True, 0, 5])})
         ops.append({"s": 0, "op": "solve"})
-    sc["ops"] = ops
+    sc["ops"] = add_fault(rng, ops) if not scale else ops
     return sc
+
+
+def add_fault(rng, ops, p=0.1):
+    """Fault injection: in one scenario out of ten the solver behind the seam fails once, at the n-th
+    call of one query (inside the refute loop when n > 1), and the same Solver is queried again."""
+    r = random.Random(rng.random())  # one draw: the rest of the scenario stream is unchanged
+    if r.random() >= p:
+        return ops
+    at = [j for j, o in enumerate(ops) if o["op"] in ("find_answer", "solve")]
+    if not at:
+        return ops
+    j = r.choice(at)
+    arm = {"s": 0, "op": "arm_fault", "n": r.choice([1, 1, 2, 2, 3, 4]), "torn": r.randint(0, 4), "kind": r.choice(["unknown", "exception"])}
+    ops = ops[:j] + [arm] + ops[j:]
+    if j == at[-1]:
+        ops.append({"s": 0, "op": "solve"})
+    return ops
 
 
 def valid(sc):
@@ -195,6 +213,9 @@ def valid(sc):
                     if not 0 <= i < len(decls) or i in keys:
                         return False
                     keys.add(i)
+            elif k == "arm_fault":
+                if op["n"] < 1 or op.get("torn", 0) < 0:
+                    return False
             elif k == "scribble":
                 if not 0 <= op["id"] < len(decls):
                     return False
@@ -454,7 +475,17 @@ def run(sc) -> RunResult:
             for n_op, op in enumerate(sc["ops"]):
                 k = op["op"]
                 res.steps += 1
+                fired0 = ctx.faults_fired + z3cap.get("faults_fired", 0) + peer.faults_fired
                 try:
+                    if k == "arm_fault":
+                        # the next query meets a failing solver (whichever seam the route talks to)
+                        ctx.arm_fault(op["n"], op.get("torn", 0))
+                        peer.fault_in = op["n"]
+                        z3cap["fault_in"] = op["n"]
+                        z3cap["fault_kind"] = op.get("kind", "unknown")
+                        z3cap["result"] = res
+                        res.log("op", n_op, "arm_fault", op["n"], op.get("torn", 0), op.get("kind"))
+                        continue
                     if k == "bool_var":
                         vars_.append(solver.bool_var())
                         decls.append({"t": "b"})
@@ -475,7 +506,11 @@ def run(sc) -> RunResult:
                         cap = None
                         ctx.cap = peer.cap = None
                         z3cap["cap"] = None
-                        solver.find_answer(backend=backend)
+                        try:
+                            solver.find_answer(backend=backend)
+                        finally:
+                            ctx.disarm_fault()
+                            peer.fault_in = z3cap["fault_in"] = None
                         res.hit("perturb:find_answer_between")
                     elif k == "solve":
                         bound = 8 + 3 * sum((2 if decls[i]["t"] == "b" else decls[i]["hi"] - decls[i]["lo"] + 1) for i in keys)
@@ -491,6 +526,15 @@ def run(sc) -> RunResult:
                             res.violate("C02/no-return-within-bound", f"op#{n_op} solve(): {e} [{tag}]")
                             res.log("op", n_op, "solve", "no-return")
                             continue
+                        finally:
+                            ctx.disarm_fault()
+                            peer.fault_in = z3cap["fault_in"] = None
+                        if ctx.faults_fired + z3cap.get("faults_fired", 0) + peer.faults_fired > fired0:
+                            res.hit("fault:absorbed_query_returned")
+                            if route == "C":
+                                # the Sugar-family contract only speaks about well-formed replies
+                                res.log("op", n_op, "solve", "returned-after-solver-failure")
+                                continue
                         sols = [v.sol for v in vars_]
                         calls = ctx.calls if route in ("A", "D") else (z3cap.get("calls", 0) if route == "B" else peer.calls)
                         res.log("op", n_op, "solve", r, sols, calls)
@@ -520,6 +564,11 @@ def run(sc) -> RunResult:
                 except core.HarnessError:
                     raise
                 except Exception as e:
+                    if ctx.faults_fired + z3cap.get("faults_fired", 0) + peer.faults_fired > fired0:
+                        # the injected failure reached the caller: nothing was claimed; later queries are checked as usual
+                        res.hit("fault:failure_propagated_to_caller")
+                        res.log("op", n_op, k, "failed-with-the-solver", type(e).__name__)
+                        continue
                     res.violate("C02/unexpected-exception", f"op#{n_op} {k} raised {type(e).__name__}: {str(e)[:200]} [{tag}]")
                     res.log("op", n_op, k, "exception", type(e).__name__)
             # wire-level sanity of route C: no protocol errors seen by the peer
